@@ -495,12 +495,13 @@ func vlSubsequence(sub, s string) bool {
 }
 
 
-// vlDropsExplained: is the streamed text `o` the generated bytes `g` with only such bytes removed as flushPending's
-// trim to the longest valid UTF-8 prefix can remove?  Every maximal removed run must START at a byte at which
-// decoding `g` fails (an invalid byte, or a character that is never completed) — the trim then discards the rest of
-// that pending window, valid or not — except a final run, which may also start where a stop string occurs in `g`
-// (TruncateStop cut there).  Independent of the model and of runner/common: unicode/utf8 and strings only.
-func vlDropsExplained(o, g string, stops []string, endedByStop bool) bool {
+// vlExplain: is the streamed text `o` the generated bytes `g` with only such bytes removed as flushPending's trim
+// to the longest valid UTF-8 prefix can remove?  Every maximal removed run must START at a byte at which decoding `g`
+// fails (an invalid byte, or a character that is never completed) — the trim then discards the rest of that pending
+// window, valid or not — except a final run, which may also start where TruncateStop cut: at an occurrence of a stop
+// in `g`, or at the first byte of a character that this cut left incomplete.  Returns also, for every byte of `o`,
+// its position in `g` under one such explanation.  Independent of the model and of runner/common.
+func vlExplain(o, g string, stops []string, endedByStop bool) (bool, []int) {
 	n, m := len(g), len(o)
 	invalid := make([]bool, n)
 	for i := 0; i < n; {
@@ -516,14 +517,20 @@ func vlDropsExplained(o, g string, stops []string, endedByStop bool) bool {
 		if !endedByStop {
 			return false
 		}
-		for _, st := range stops {
-			if st != "" && strings.HasPrefix(g[i:], st) {
-				return true
+		for j := i; j <= n && j <= i+3; j++ {
+			if j > i {
+				if r, w := utf8.DecodeRuneInString(g[i:j]); !(r == utf8.RuneError && w <= 1) {
+					continue // g[:j] does not end in a character that starts at i and is cut short
+				}
+			}
+			for _, st := range stops {
+				if st != "" && strings.HasPrefix(g[j:], st) {
+					return true
+				}
 			}
 		}
 		return false
 	}
-	// can[i][k][d]: g[i:] can be explained against o[k:], d = 1 while inside a removed run
 	memo := make([]int8, (n+1)*(m+1)*2)
 	var can func(i, k, d int) bool
 	can = func(i, k, d int) bool {
@@ -534,14 +541,9 @@ func vlDropsExplained(o, g string, stops []string, endedByStop bool) bool {
 		if memo[ix] != 0 {
 			return memo[ix] > 0
 		}
-		ok := false
-		if k < m && g[i] == o[k] && can(i+1, k+1, 0) {
-			ok = true
-		} else if (d == 1 || invalid[i]) && can(i+1, k, 1) {
-			ok = true
-		} else if k == m && stopAt(i) {
-			ok = true
-		}
+		ok := (k < m && g[i] == o[k] && can(i+1, k+1, 0)) ||
+			((d == 1 || invalid[i]) && can(i+1, k, 1)) ||
+			(k == m && stopAt(i))
 		if ok {
 			memo[ix] = 1
 		} else {
@@ -549,7 +551,53 @@ func vlDropsExplained(o, g string, stops []string, endedByStop bool) bool {
 		}
 		return ok
 	}
-	return can(0, 0, 0)
+	if !can(0, 0, 0) {
+		return false, nil
+	}
+	pos := make([]int, 0, m)
+	for i, k, d := 0, 0, 0; i < n && k < m; {
+		if g[i] == o[k] && can(i+1, k+1, 0) {
+			pos = append(pos, i)
+			i, k, d = i+1, k+1, 0
+		} else if (d == 1 || invalid[i]) && can(i+1, k, 1) {
+			i, d = i+1, 1
+		} else {
+			break
+		}
+	}
+	return len(pos) == m, pos
+}
+
+// vlDropsExplained: see vlExplain
+func vlDropsExplained(o, g string, stops []string, endedByStop bool) bool {
+	ok, _ := vlExplain(o, g, stops, endedByStop)
+	return ok
+}
+
+// vlGluedOnly: every occurrence of a stop in the streamed text `o` spans bytes that were NOT adjacent in `g`
+// (the removal of undecodable bytes glued two pieces of text together): the known consequence of F20a.  An
+// occurrence whose bytes are adjacent in `g` was generated as such and should have ended the run.
+func vlGluedOnly(o string, pos []int, stops []string) bool {
+	for _, st := range stops {
+		if st == "" {
+			continue
+		}
+		for p := 0; p+len(st) <= len(o); p++ {
+			if o[p:p+len(st)] != st {
+				continue
+			}
+			glued := false
+			for q := p + 1; q < p+len(st); q++ {
+				if pos[q] != pos[q-1]+1 {
+					glued = true
+				}
+			}
+			if !glued {
+				return false
+			}
+		}
+	}
+	return true
 }
 
 func vlTrimTail(s string) string {
@@ -648,7 +696,7 @@ func vlL2(out *zzverif.Out, line string, stops []string, script []vlEv, res vlRe
 		for _, st := range stops {
 			if strings.Contains(o, st) {
 				cl := "other"
-				if !strings.Contains(g, st) && !strings.HasPrefix(g, o) && vlDropsExplained(o, g, stops, res.reason == "stop") {
+				if ok, pos := vlExplain(o, g, stops, res.reason == "stop"); ok && !strings.HasPrefix(g, o) && vlGluedOnly(o, pos, stops) {
 					cl = "after-invalid-bytes"
 					out.Count("llama_f20_stop_spelt_after_drop")
 				}
@@ -689,7 +737,7 @@ func vlL2(out *zzverif.Out, line string, stops []string, script []vlEv, res vlRe
 					m++
 				}
 			}
-			if !empty && strings.HasPrefix(g, o) && res.cacheLen != res.prompt+m {
+			if res.cacheLen > 0 && !empty && strings.HasPrefix(g, o) && res.cacheLen != res.prompt+m { // 0: not observed (handler driver)
 				out.L2("cache-not-streamed-tokens", line, fmt.Sprintf("runner=llama cache=%d prompt=%d tokens_streamed_in_full=%d out=%x", res.cacheLen, res.prompt, m, o))
 			}
 		}
